@@ -21,7 +21,7 @@ def driver_for(u):
     out = os.path.join(BUILD, 'replay_bin', u['unit'])
     os.makedirs(os.path.dirname(out), exist_ok=True)
     return nativebuild.build_driver(src, out, sanitize=True, link_lib=bool(u.get('replay_links_lib')),
-                                    extra=tuple(u.get('replay_flags', [])))
+                                    extra=tuple(f.replace('/repo', REPO) for f in u.get('replay_flags', [])))
 
 
 def run_driver(exe, args, timeout=300):
